@@ -193,3 +193,168 @@ Definition listreq_service := mkService [mkMethod true HGet false true false tru
 Lemma service_listrequest_panics :
   service_in_language listreq_service = true /\ verdict_d (compile_service listreq_service) = VPanic.
 Proof. vm_compute. split; reflexivity. Qed.
+
+(* ---- topics, object and oneof shells *)
+Lemma typed_topic_service : site_typed st_topic_service = true. Proof. vm_compute. reflexivity. Qed.
+Lemma typed_object_psm : site_typed st_object_psm = true. Proof. vm_compute. reflexivity. Qed.
+Lemma typed_oneof_msg : site_typed st_oneof_msg = true. Proof. vm_compute. reflexivity. Qed.
+
+Theorem topic_accepted : forall t, verdict_d (compile_topic t) = VOk.
+Proof.
+  intro t. unfold compile_topic.
+  destruct (Nat.ltb 0 (topic_messages t)); destruct (topic_has_metadata t); vm_compute; reflexivity.
+Qed.
+Theorem object_shell_accepted : forall entity, verdict_d (compile_object_shell entity) = VOk.
+Proof. intros [|]; vm_compute; reflexivity. Qed.
+Theorem oneof_shell_accepted : verdict_d compile_oneof_shell = VOk.
+Proof. vm_compute. reflexivity. Qed.
+
+(* every site of the model's call-site table is exercised by one of the model functions: the field
+   sites by build_property / set_j5ext (CmpbFields.v), the declaration sites by the functions above *)
+Definition decl_sites_used : list site :=
+  [st_topic_service; st_object_psm; st_object_msg; st_oneof_msg; st_enum_info; st_enum_value;
+   st_service_opts; st_method_http; st_method_opts; st_method_listreq].
+Lemma decl_sites_are_model_sites :
+  forallb (fun x => existsb (fun y => String.eqb (s_func x) (s_func y) && ext_eqb (s_ext x) (s_ext y)) model_sites) decl_sites_used = true.
+Proof. vm_compute. reflexivity. Qed.
+
+Definition service_full_statement : Prop :=
+  forall sv, service_in_language sv = true -> verdict_d (compile_service sv) = VOk.
+Lemma service_full_refuted : ~ service_full_statement.
+Proof.
+  intro H. destruct service_listrequest_panics as [Hl Hp]. rewrite (H _ Hl) in Hp. discriminate.
+Qed.
+
+(* ------------------------------------------------------------ whole files, by induction over the declarations *)
+From J5V.proofs Require Import CmpbFieldsProofs.
+
+Lemma fold_add_imp_mem l : forall acc i, mem_imp i acc = true -> mem_imp i (fold_left (fun l i => add_imp i l) l acc) = true.
+Proof. induction l as [|x r IH]; intros acc i H; cbn [fold_left]; [exact H|]. apply IH. apply mem_imp_add_mono. exact H. Qed.
+Lemma fold_add_imp_in l : forall acc i, mem_imp i l = true -> mem_imp i (fold_left (fun l i => add_imp i l) l acc) = true.
+Proof.
+  induction l as [|x r IH]; intros acc i H; [discriminate|]. cbn [fold_left]. unfold mem_imp in H. cbn [existsb] in H.
+  apply orb_prop in H. destruct H as [H|H].
+  - apply fold_add_imp_mem. assert (i = x) by (destruct i, x; try discriminate; reflexivity). subst. apply mem_imp_add_same.
+  - apply IH. exact H.
+Qed.
+Lemma ext_imported_weaken l1 l2 e : (forall i, mem_imp i l1 = true -> mem_imp i l2 = true) -> ext_imported l1 e = true -> ext_imported l2 e = true.
+Proof. intros H. unfold ext_imported. destruct (ext_imp e); auto. Qed.
+Lemma forallb_fold_add_ext (P : ext -> bool) l : forall acc, forallb P acc = true -> forallb P l = true ->
+  forallb P (fold_left (fun l e => add_ext e l) l acc) = true.
+Proof.
+  induction l as [|x r IH]; intros acc Ha Hl; cbn [fold_left]; [exact Ha|]. cbn [forallb] in Hl.
+  apply andb_prop in Hl. destruct Hl as [Hx Hr]. apply IH; [apply forallb_add_ext; assumption|exact Hr].
+Qed.
+
+Lemma sound_merge a b : sound a -> sound b -> sound (merge a b).
+Proof.
+  intros [Pa La] [Pb Lb]. split; [cbn; rewrite Pa, Pb; reflexivity|].
+  unfold links_d in La, Lb. unfold links_d, merge; cbn [d_imps d_exts]. apply forallb_fold_add_ext.
+  - rewrite forallb_forall in *. intros e He. apply (ext_imported_weaken (d_imps a)); [apply fold_add_imp_mem|apply La; exact He].
+  - rewrite forallb_forall in *. intros e He. apply (ext_imported_weaken (d_imps b)); [intros i Hi; apply fold_add_imp_in; exact Hi|apply Lb; exact He].
+Qed.
+Lemma nerr_merge a b : d_nerr (merge a b) = d_nerr a + d_nerr b.
+Proof. reflexivity. Qed.
+
+(* one property: never a panic, and when it converts everything it sets is imported (iso theorems) *)
+Lemma sound_prop_state p : sound (prop_state p).
+Proof.
+  unfold prop_state. pose proof (iso_no_panic p) as Hn. destruct (o_verdict (compile_iso p)) eqn:E; try contradiction.
+  - split; [reflexivity|]. unfold links_d; cbn [d_imps d_exts]. rewrite forallb_forall. intros e He.
+    apply (iso_imports_cover p E). right. exact He.
+  - split; reflexivity.
+  - exfalso. exact (iso_no_link_error p E).
+Qed.
+Lemma nerr_prop_state p : prop_accepted p = true -> d_nerr (prop_state p) = 0.
+Proof.
+  intro H. unfold prop_state. rewrite (iso_language_accepted p H). reflexivity.
+Qed.
+
+Lemma sound_props props : forall s, sound s -> sound (fold_left (fun s p => merge s (prop_state p)) props s).
+Proof. induction props as [|p r IH]; intros s Hs; cbn [fold_left]; [exact Hs|]. apply IH. apply sound_merge; [exact Hs|apply sound_prop_state]. Qed.
+Lemma nerr_props props : forall s, forallb prop_accepted props = true ->
+  d_nerr (fold_left (fun s p => merge s (prop_state p)) props s) = d_nerr s.
+Proof.
+  induction props as [|p r IH]; intros s H; cbn [fold_left]; [reflexivity|]. cbn [forallb] in H. apply andb_prop in H.
+  destruct H as [Hp Hr]. rewrite IH by exact Hr. rewrite nerr_merge, (nerr_prop_state p Hp). lia.
+Qed.
+
+Lemma sound_of_ok s : verdict_d s = VOk -> sound s /\ d_nerr s = 0.
+Proof.
+  unfold verdict_d. destruct (d_panic s) eqn:P; [discriminate|]. destruct (Nat.ltb 0 (d_nerr s)) eqn:N; [discriminate|].
+  destruct (links_d s) eqn:L; [|discriminate]. intros _. split; [split; assumption|]. apply Nat.ltb_ge in N. lia.
+Qed.
+
+Lemma sound_decl d : decl_has_list_request d = false -> sound (decl_state d).
+Proof.
+  destruct d as [entity props|props|e|sv|t]; cbn [decl_state decl_has_list_request]; intro H.
+  - apply sound_props. apply (sound_of_ok _ (object_shell_accepted entity)).
+  - apply sound_props. apply (sound_of_ok _ oneof_shell_accepted).
+  - apply (sound_of_ok _ (enum_accepted e)).
+  - apply service_sound. intros m Hm. destruct (m_list_request m) eqn:E; [|reflexivity].
+    assert (existsb m_list_request (sv_methods sv) = true) by (apply existsb_exists; eauto). congruence.
+  - apply (sound_of_ok _ (topic_accepted t)).
+Qed.
+Lemma nerr_decl d : decl_in_language d = true -> decl_has_list_request d = false -> d_nerr (decl_state d) = 0.
+Proof.
+  destruct d as [entity props|props|e|sv|t]; cbn [decl_state decl_in_language decl_has_list_request]; intros Hl Hr.
+  - rewrite nerr_props by exact Hl. apply (sound_of_ok _ (object_shell_accepted entity)).
+  - rewrite nerr_props by exact Hl. apply (sound_of_ok _ oneof_shell_accepted).
+  - apply (sound_of_ok _ (enum_accepted e)).
+  - apply (sound_of_ok (compile_service sv)). apply service_accepted; [exact Hl|].
+    intros m Hm. destruct (m_list_request m) eqn:E; [|reflexivity].
+    assert (existsb m_list_request (sv_methods sv) = true) by (apply existsb_exists; eauto). congruence.
+  - apply (sound_of_ok _ (topic_accepted t)).
+Qed.
+
+Definition no_list_requests (ds : list decl) : Prop := forall d, In d ds -> decl_has_list_request d = false.
+
+Lemma sound_file t ds : no_list_requests ds -> forall s, sound s ->
+  sound (fold_left (fun s d => if target_eqb (decl_target d) t then merge s (decl_state d) else s) ds s).
+Proof.
+  induction ds as [|d r IH]; intros Hn s Hs; cbn [fold_left]; [exact Hs|].
+  apply IH; [intros x Hx; apply Hn; right; exact Hx|].
+  destruct (target_eqb (decl_target d) t); [|exact Hs]. apply sound_merge; [exact Hs|]. apply sound_decl. apply Hn. left. reflexivity.
+Qed.
+Lemma nerr_file t ds : no_list_requests ds -> forallb decl_in_language ds = true -> forall s,
+  d_nerr (fold_left (fun s d => if target_eqb (decl_target d) t then merge s (decl_state d) else s) ds s) = d_nerr s.
+Proof.
+  induction ds as [|d r IH]; intros Hn Hl s; cbn [fold_left]; [reflexivity|]. cbn [forallb] in Hl. apply andb_prop in Hl.
+  destruct Hl as [Hd Hr]. rewrite IH; [|intros x Hx; apply Hn; right; exact Hx|exact Hr].
+  destruct (target_eqb (decl_target d) t); [|reflexivity]. rewrite nerr_merge, (nerr_decl d Hd); [lia|]. apply Hn. left. reflexivity.
+Qed.
+
+(* a file of ANY declarations without list requests: the converter does not panic and, when no error
+   is recorded, all three output files link *)
+Theorem file_total_links : forall ds, no_list_requests ds ->
+  file_verdict ds <> VPanic /\ file_verdict ds <> VLinkErr.
+Proof.
+  intros ds Hn.
+  destruct (sound_file FMain ds Hn d0 sound_d0) as [P1 L1].
+  destruct (sound_file FService ds Hn d0 sound_d0) as [P2 L2].
+  destruct (sound_file FTopic ds Hn d0 sound_d0) as [P3 L3].
+  unfold file_verdict, file_panics, file_state. rewrite P1, P2, P3. cbn [orb].
+  destruct (Nat.ltb 0 (file_nerr ds)); [split; discriminate|].
+  unfold file_state in L1, L2, L3 |- *. rewrite L1, L2, L3. split; discriminate.
+Qed.
+
+(* every file whose declarations are in the documented language (minus the recorded gaps) is accepted *)
+Theorem file_accepted : forall ds, no_list_requests ds -> forallb decl_in_language ds = true -> file_verdict ds = VOk.
+Proof.
+  intros ds Hn Hl.
+  destruct (sound_file FMain ds Hn d0 sound_d0) as [P1 L1].
+  destruct (sound_file FService ds Hn d0 sound_d0) as [P2 L2].
+  destruct (sound_file FTopic ds Hn d0 sound_d0) as [P3 L3].
+  unfold file_verdict, file_panics, file_nerr, file_state in *. rewrite P1, P2, P3. cbn [orb].
+  rewrite !(nerr_file _ ds Hn Hl d0). cbn. rewrite L1, L2, L3. reflexivity.
+Qed.
+
+(* "without depending on unrelated declarations": removing any declarations from an accepted file of
+   in-language declarations leaves an accepted file *)
+Theorem file_isolation : forall ds ds', no_list_requests ds -> forallb decl_in_language ds = true ->
+  (forall d, In d ds' -> In d ds) -> file_verdict ds' = VOk.
+Proof.
+  intros ds ds' Hn Hl Hsub. apply file_accepted.
+  - intros d Hd. apply Hn. apply Hsub. exact Hd.
+  - rewrite forallb_forall in *. intros d Hd. apply Hl. apply Hsub. exact Hd.
+Qed.
